@@ -23,7 +23,7 @@ Your task: make ONE small, realistic source change (the kind of thing a refactor
  (2) the existing tests of the packages you touched still pass exactly as before your change (some tests in this repo fail or panic even without any change - e.g. in pkg/ipam/schedulerplugin the test binary panics late in the run in a dynamic-informer test; compare the set of passing tests before and after with `go test -vet=off -count=1 -json` on the touched packages; no previously passing test may fail), and
  (3) the breakage needs something SPECIFIC to manifest - a particular interleaving of two operations, a crash or API error at a particular point, a multi-step sequence, an unusual but valid input, or two cooperating sites that each look fine alone. Do NOT make a change that the most ordinary use would expose immediately.
 {extra}
-Do not touch *_test.go files of the project, do not add build tags, do not edit files named zz_verif_hooks.go.
+Do NOT use `git stash` (the stash is shared between sibling worktrees; use `git diff > p.diff; git apply -R p.diff; ...; git apply p.diff` instead). Do not touch *_test.go files of the project, do not add build tags, do not edit files named zz_verif_hooks.go.
 
 Deliver, inside /tmp/seed/{wt}/SEED/ :
  - patch.diff : `git diff` of your change (source only), applying cleanly with `git apply` to a clean checkout of HEAD
